@@ -9,5 +9,5 @@ sed -i "$EXPR" "$D/src/picosvg/$FILE"
 if diff -q /repo/src/picosvg/$FILE "$D/src/picosvg/$FILE" >/dev/null; then echo "MUTATION DID NOT APPLY"; rm -rf "$D"; exit 2; fi
 cd /verif
 set +e
-SX_EVIDENCE_DIR="$D/ev" SX_REPO="$D" PYTHONPATH="$D/src" ./check "$ID" "$@" 2>&1 | grep -E "VIOLATION|KNOWN|^\[C|first" | cut -c1-400
+SX_EVIDENCE_DIR="$D/ev" SX_REPO="$D" PYTHONPATH="$D/src" timeout ${MUT_TIMEOUT:-900} ./check "$ID" "$@" 2>&1 | grep -E "VIOLATION|KNOWN|^.C[0-9][0-9]. tier" | cut -c1-400
 rm -rf "$D"
